@@ -3,6 +3,7 @@ package checks
 import (
 	"fmt"
 	"hash"
+	"io"
 
 	"github.com/tormoder/fit/dyncrc16"
 
@@ -18,7 +19,7 @@ func registerC14() {
 		Level: "exploration",
 		Rule: "family transitions: all 65536 register states x 256 input bytes, the register being driven to each state through the public API by writing the " +
 			"two-byte preimage computed with the bit-serial reference (every (state, byte) pair is one distinct non-trivial case); family streaming: PRNG byte strings " +
-			"(length 0..5000) x PRNG write partitions, compared with the reference, Reset, residue and Sum(nil); distinct by string digest; family long-writes: for each of the " +
+			"(length 0..5000) x PRNG write partitions, compared with the reference, also fed through io.Copy / io.CopyN from short-reading and data-with-EOF readers, Reset, residue and Sum(nil); distinct by string digest; family long-writes: for each of the " +
 			"65536 register states s and block offsets 0/4/8/.../28 one single Write of >= 64 bytes that drives the register to s and then feeds it s itself followed by zero bytes " +
 			"(the input on which multi-byte-at-a-time and zero-skipping implementations go wrong), compared with the reference and with a byte-wise feed",
 		Assume:        []string{"the bit-serial reference CRC-16/ARC (12 lines, checked against the catalogue check value 0xBB3D) is the specification"},
@@ -130,6 +131,22 @@ func c14Streaming(c *lib.Ctx, idx uint64) {
 	if got := dyncrc16.Checksum(append(append([]byte{}, d...), byte(want), byte(want>>8))); got != 0 {
 		c.Violation(d, "residue (Checksum): %#04x, not 0", got)
 		return
+	}
+	// Feeding through io.Copy / io.CopyN (which use ReadFrom when the hash offers it) from readers that
+	// deliver short reads, (0, nil) reads and the last bytes together with io.EOF is still "feeding the data".
+	for k, ch := range []lib.Chunker{{Kind: "rand", Size: 97, R: rng, Zero: true}, {Kind: "greedy", EOFWithData: true}, {Kind: "fixed", Size: 7, EOFWithData: true}} {
+		hc := dyncrc16.New()
+		var nn int64
+		var cerr error
+		if k == 1 && n > 0 {
+			nn, cerr = io.CopyN(hc, lib.NewReader(d, ch), int64(n))
+		} else {
+			nn, cerr = io.Copy(hc, lib.NewReader(d, ch))
+		}
+		if cerr != nil || nn != int64(n) || hc.Sum16() != want {
+			c.Violation(d, "io.Copy of %d bytes into the hash from a %s reader: copied %d, error %v, sum %#04x, CRC-16/ARC gives %#04x", n, ch, nn, cerr, hc.Sum16(), want)
+			return
+		}
 	}
 	h.Reset()
 	if h16.Sum16() != 0 {
